@@ -35,6 +35,9 @@ Ops ==
      [e |-> "OpenBank", b |-> 1, bad |-> 0], [e |-> "OpenBank", b |-> 2, bad |-> 0], [e |-> "OpenBank", b |-> 1, bad |-> 1],
      [e |-> "OpenMidi", s |-> 1, bad |-> 0], [e |-> "OpenMidi", s |-> 2, bad |-> 0], [e |-> "OpenMidi", s |-> 1, bad |-> 1],
      [e |-> "OpenMidi", s |-> 3, bad |-> 0],
+     \* the later file of another container: a GMF song (plain MIDI mode, no lock; the DMX MUS song is the same step of the
+     \* model) and the refused IMF image -- after the EA-MUS song, after a refused file, before an ordinary one
+     [e |-> "OpenMidi", s |-> 4, bad |-> 0], [e |-> "OpenMidi", s |-> 7, bad |-> 5],
      V("SwitchEmulator", 7) >>
 NOps == IF WithDumper THEN Len(Ops) ELSE Len(Ops) - 1
 
@@ -46,7 +49,8 @@ Next == \E i \in 1..NOps :
       x == [x0 EXCEPT !.s.ho = IF @ = -1 THEN R1.ho ELSE @]      \* the repaired design restores the user's value
   IN /\ S' = x.s /\ R' = R1 /\ hist' = Append(hist, i)
      /\ viol' = viol \cup (IF x.r = -99 THEN {"crash:" \o ev.e}
-                         ELSE CallFails(S, ev, x.r, x.s, R, R1) \cup ForceFails(x.s, R1) \cup ReloadFails(ev, x.r, R))
+                         ELSE CallFails(S, ev, x.r, x.s, R, R1) \cup ForceFails(x.s, R1) \cup ReloadFails(ev, x.r, R)
+                              \cup LoadFails(ev, x.r, x.s, R))
 Spec == Init /\ [][Next]_vars
 NoBad == viol = {}
 DepthBound == Len(hist) <= MaxDepth          \* histories of at most MaxDepth calls (exact, unlike TLCGet("level") with several workers)
